@@ -120,6 +120,8 @@ def force_behaviours(ctx, behs, base_id):
 
 
 def run(ctx):
+    import time
+    t0 = time.time()
     # 1. model checking: safety + deadlock freedom, then liveness under weak fairness
     acts = ["m_init", "m_top", "m_run", "m_wk", "m_ss_acq", "m_ss_body", "m_ss_rel", "m_cl_body", "m_cl_rel",
             "m_cl_wk", "m_cl_join", "m_cl_rm", "m_cl_end", "s_acq", "s_cs", "s_woke", "s_sel_begin",
@@ -130,17 +132,26 @@ def run(ctx):
     ctx.mc(SPEC, "SelectorThread", "MCL_SelectorThread.cfg",
            overrides=ctx.pick({"MaxChg": 1, "MaxEnv": 1}, {"MaxChg": 2, "MaxEnv": 2}),
            required_actions=acts)
+    ctx._phase("mc", t0)
+    t0 = time.time()
     # 2. code -> spec: recorded runs of the real SelectorThread validated by TLC
     nf = 3
     n = ctx.pick(60, 2000)
     runs = record_runs(ctx, n, nf, nops=12, nenv=8, base=ctx.seed * 1000003 + 17)
+    ctx._phase("record", t0)
+    t0 = time.time()
     # 3. spec -> code: TLC behaviours forced on the real threads
     k = ctx.pick(150, 3000)
     depth = ctx.pick(100, 160)
     behs = sim_behaviours(ctx, k, depth, '{"close", "atexit"}', ctx.seed + 11)
     behs += sim_behaviours(ctx, k, depth, "{}", ctx.seed + 12)
+    ctx._phase("simulate", t0)
+    t0 = time.time()
     forced = force_behaviours(ctx, behs, 100000)
+    ctx._phase("force", t0)
+    t0 = time.time()
     traces = check_runs(ctx, runs + forced, nf)
+    ctx._phase("validate", t0)
     evs = sum(len(t["ev"]) for t in traces)
     ctx.note("recorded_events", evs)
     ctx.cov["trusted_base"] = ["TLC/SANY 1.8.0", "PlusCal translator (pcal.trans 1.12)",
